@@ -123,6 +123,11 @@ class SmallSetInterp {
     const char *q = reinterpret_cast<const char *>(&*c.begin());
     return q >= b && q < b + sizeof(S);
   }
+  // address designated by operator-> (raw pointers designate themselves)
+  template <class It>
+  static auto arrow(const It &it) -> decltype(it.operator->()) { return it.operator->(); }
+  static const E *arrow(const E *p) { return p; }
+
   typename S::const_iterator it_at(const S &c, long k) const {
     typename S::const_iterator it = c.begin();
     for (long q = 0; q < k; ++q) ++it;
@@ -148,7 +153,10 @@ class SmallSetInterp {
     std::vector<int> seen;
     size_t steps = 0;
     try {
-      for (typename S::const_iterator it = c.begin(); it != c.end() && steps <= m.size() + 1; ++it, ++steps) seen.push_back(val_of(*it));
+      for (typename S::const_iterator it = c.begin(); it != c.end() && steps <= m.size() + 1; ++it, ++steps) {
+        seen.push_back(val_of(*it));
+        if (arrow(it) != std::addressof(*it)) violation(P11, "%s: iterator operator-> does not designate the element operator* designates", what);
+      }
     } catch (const std::exception &e) {
       violation(P04 | P11, "%s: walking begin()->end() threw '%s'", what, e.what());
       return;
@@ -165,7 +173,10 @@ class SmallSetInterp {
     std::vector<int> rseen;
     steps = 0;
     try {
-      for (typename S::const_reverse_iterator it = c.rbegin(); it != c.rend() && steps <= m.size() + 1; ++it, ++steps) rseen.push_back(val_of(*it));
+      for (typename S::const_reverse_iterator it = c.rbegin(); it != c.rend() && steps <= m.size() + 1; ++it, ++steps) {
+        rseen.push_back(val_of(*it));
+        if (arrow(it) != std::addressof(*it)) violation(P11, "%s: reverse iterator operator-> does not designate the element operator* designates", what);
+      }
     } catch (const std::exception &e) {
       violation(P11, "%s: walking rbegin()->rend() threw '%s'", what, e.what());
       return;
